@@ -120,7 +120,14 @@ func (e *Engine) execInstr(st *State, fr *Frame, in ssa.Instruction) {
 	case *ssa.MultiConvert:
 		panic(unsupported("MultiConvert"))
 	case *ssa.ChangeInterface:
-		fr.vals[x] = e.get(st, fr, x.X)
+		v := e.get(st, fr, x.X)
+		if t, isTerm := v.(Term); isTerm {
+			if _, toTP := x.Type().(*types.TypeParam); !toTP {
+				// a type-parameter typed value converted to a proper interface: box it
+				v = VIface{Tag: e.typeTag(x.X.Type()), Val: t}
+			}
+		}
+		fr.vals[x] = v
 	case *ssa.MakeInterface:
 		fr.vals[x] = e.makeInterface(st, e.get(st, fr, x.X), x.X.Type())
 	case *ssa.TypeAssert:
@@ -314,8 +321,11 @@ func (e *Engine) execUnOp(st *State, fr *Frame, x *ssa.UnOp) {
 			if signed {
 				fr.vals[x] = Sub(Sub(TZero, v.(Term)), TOne)
 			} else {
-				_ = w
-				fr.vals[x] = Sub(BigLit(hi), v.(Term))
+				r := Sub(BigLit(hi), v.(Term))
+				if b, ok := e.bits[v.(Term).S]; ok && !b.inv {
+					e.noteBit(r, b.k, w, true)
+				}
+				fr.vals[x] = r
 			}
 		} else {
 			panic(unsupported("^ on " + t.String()))
@@ -437,7 +447,12 @@ func (e *Engine) binop(st *State, fr *Frame, in ssa.Instruction, op token.Token,
 			}
 			return e.wrap(Mul(x, BigLit(pow2(uint(n.Int64())))), tr)
 		}
-		return e.wrap(Mul(x, app(SInt, "pow2", y)), tr)
+		r := e.wrap(Mul(x, app(SInt, "pow2", y)), tr)
+		if x.S == "1" && isUnsigned(tr) {
+			// 1 << k: a single-bit mask (exact rewrites of &, |, &^ with it, see bitop)
+			e.noteBit(r, y, w, false)
+		}
+		return r
 	case token.SHR:
 		if in != nil && !isUnsigned(tb) {
 			e.Assert(st, fr, "shift", fr.sites[in], Ge(y, TZero))
@@ -506,6 +521,77 @@ func (e *Engine) bitop(st *State, op token.Token, x, y Term, t types.Type) Term 
 			r.AndNot(xl, yl)
 		}
 		return BigLit(r)
+	}
+	// exact treatment of single-bit masks 1<<k (k < width) and their complements
+	if !signed {
+		// a | b where a is a multiple of 2^k and b < 2^k (disjoint bit ranges): a + b
+		if op == token.OR || op == token.XOR {
+			if k, ok := multipleOfPow2(x); ok {
+				if m, ok2 := belowPow2(y); ok2 && m <= k {
+					return Add(x, y)
+				}
+			}
+			if k, ok := multipleOfPow2(y); ok {
+				if m, ok2 := belowPow2(x); ok2 && m <= k {
+					return Add(x, y)
+				}
+			}
+		}
+		bx, isbx := e.bits[x.S]
+		by, isby := e.bits[y.S]
+		// literal single-bit masks and their complements
+		litBit := func(l *big.Int) (bitInfo, bool) {
+			if l.Sign() > 0 && l.BitLen()-1 == int(l.TrailingZeroBits()) {
+				return bitInfo{IntLit(int64(l.BitLen() - 1)), w, false}, true
+			}
+			c := new(big.Int).Sub(hiT, l)
+			if c.Sign() > 0 && c.BitLen()-1 == int(c.TrailingZeroBits()) {
+				return bitInfo{IntLit(int64(c.BitLen() - 1)), w, true}, true
+			}
+			return bitInfo{}, false
+		}
+		if oky && !isby {
+			by, isby = litBit(yl)
+		}
+		if okx && !isbx {
+			bx, isbx = litBit(xl)
+		}
+		if isbx && !isby && op != token.AND_NOT {
+			x, y = y, x
+			by, isby = bx, true
+		}
+		if isby && by.w == w {
+			pk := app(SInt, "pow2", by.k)
+			inRange := And(Le(TZero, by.k), Lt(by.k, IntLit(int64(w))))
+			bit := Eq(EMod(EDiv(x, pk), IntLit(2)), TOne)
+			var r Term
+			okOp := true
+			switch {
+			case !by.inv && op == token.AND:
+				r = Ite(bit, pk, TZero)
+			case !by.inv && op == token.OR:
+				r = Ite(bit, x, Add(x, pk))
+			case !by.inv && op == token.XOR:
+				r = Ite(bit, Sub(x, pk), Add(x, pk))
+			case !by.inv && op == token.AND_NOT:
+				r = Ite(bit, Sub(x, pk), x)
+			case by.inv && op == token.AND:
+				r = Ite(bit, Sub(x, pk), x)
+			default:
+				okOp = false
+			}
+			if okOp {
+				// for k >= width the mask is 0 (or all ones): fall back to the trivial result
+				var dflt Term
+				switch {
+				case !by.inv && op == token.AND:
+					dflt = TZero
+				default:
+					dflt = x
+				}
+				return Ite(inRange, r, dflt)
+			}
+		}
 	}
 	if op == token.AND_NOT && oky && !signed {
 		// x &^ c == x & (^c)
@@ -713,6 +799,14 @@ func (e *Engine) strConcat(st *State, a, b VStr) VStr {
 }
 
 func (e *Engine) changeType(v Value, from, to types.Type) Value {
+	if t, isTerm := v.(Term); isTerm {
+		_, fromTP := from.(*types.TypeParam)
+		_, toTP := to.(*types.TypeParam)
+		if _, toIface := to.Underlying().(*types.Interface); fromTP && toIface && !toTP {
+			// a type-parameter typed value converted to a proper interface: box it
+			return VIface{Tag: e.typeTag(from), Val: t}
+		}
+	}
 	if s, ok := v.(VStruct); ok {
 		if ts, ok2 := to.Underlying().(*types.Struct); ok2 {
 			s.T = ts
@@ -1107,6 +1201,7 @@ func (e *Engine) havocLoopHeap(st *State, fr *Frame, head *ssa.BasicBlock) {
 			if strings.HasPrefix(name, t.prefix) {
 				h := st.heap[name]
 				fresh := e.sym.Fresh("loopobj", elemSort(h.Sort))
+				e.typeObj(fresh, name)
 				st.heap[name] = Store(h, t.ref, fresh)
 			}
 		}
@@ -1236,6 +1331,68 @@ func rangeKeyName(rs *ast.RangeStmt) string {
 		return id.Name
 	}
 	return ""
+}
+
+// multipleOfPow2 recognises terms of the form (* t 2^j) and (mod (* t 2^j) 2^n): multiples of 2^j.
+func multipleOfPow2(t Term) (uint, bool) {
+	s := t.S
+	if strings.HasPrefix(s, "(mod ") {
+		parts := splitTop(s[1 : len(s)-1])
+		if len(parts) != 3 {
+			return 0, false
+		}
+		n, ok := Term{parts[2], SInt}.IsLit()
+		if !ok || n.Sign() <= 0 || n.BitLen()-1 != int(n.TrailingZeroBits()) {
+			return 0, false
+		}
+		j, ok := multipleOfPow2(Term{parts[1], SInt})
+		if !ok || int(j) > n.BitLen()-1 {
+			return 0, false
+		}
+		return j, true
+	}
+	if strings.HasPrefix(s, "(* ") {
+		parts := splitTop(s[1 : len(s)-1])
+		if len(parts) != 3 {
+			return 0, false
+		}
+		for _, p := range parts[1:] {
+			if n, ok := (Term{p, SInt}).IsLit(); ok && n.Sign() > 0 && n.BitLen()-1 == int(n.TrailingZeroBits()) {
+				return uint(n.BitLen() - 1), true
+			}
+		}
+	}
+	return 0, false
+}
+
+// belowPow2 recognises terms (mod t 2^m) (values in [0, 2^m)).
+func belowPow2(t Term) (uint, bool) {
+	s := t.S
+	if strings.HasPrefix(s, "(mod ") {
+		parts := splitTop(s[1 : len(s)-1])
+		if len(parts) == 3 {
+			if n, ok := (Term{parts[2], SInt}).IsLit(); ok && n.Sign() > 0 && n.BitLen()-1 == int(n.TrailingZeroBits()) {
+				return uint(n.BitLen() - 1), true
+			}
+		}
+	}
+	if n, ok := t.IsLit(); ok && n.Sign() >= 0 {
+		return uint(n.BitLen()), true
+	}
+	return 0, false
+}
+
+type bitInfo struct {
+	k   Term
+	w   uint
+	inv bool
+}
+
+func (e *Engine) noteBit(r, k Term, w uint, inv bool) {
+	if e.bits == nil {
+		e.bits = map[string]bitInfo{}
+	}
+	e.bits[r.S] = bitInfo{k, w, inv}
 }
 
 // ptrUntouched reports whether every heap component the pointer reads is still the initial heap.
